@@ -11,6 +11,7 @@ if [ "$root" = "/tmp/seed4" ]; then y=$(echo $x | tr ab ef); fi
 if [ "$root" = "/tmp/seed5" ]; then y=$(echo $x | tr ab gh); fi
 if [ "$root" = "/tmp/seed6" ]; then y=$(echo $x | tr ab ij); fi
 if [ "$root" = "/tmp/seed7" ]; then y=$(echo $x | tr ab kl); fi
+if [ "$root" = "/tmp/seed8" ]; then y=$(echo $x | tr ab mn); fi
 wt=/tmp/vs/$id$x
 patch=$src/patch_$x.diff; demo=$src/demo_$x.py
 [ -s "$patch" ] && [ -s "$demo" ] || { echo "missing $patch or $demo"; exit 2; }
